@@ -392,7 +392,8 @@ impl PmTree {
             self.cached_leaves_indices[*i] = 0;
         }
 
-        for i in start..(max_index - min_index) {
+        // the written positions are start..start + leaves.len()
+        for i in start..max_index {
             self.cached_leaves_indices[i] = 1
         }
         Ok(())
